@@ -1064,6 +1064,35 @@ func writeBackRule(r *Rule, fn *ssa.Function) int {
 						return evTransfer
 					}
 				}
+			case *ssa.UnOp:
+				// a whole copy of the local that travels (through the result variable of an inlined helper: phis) into
+				// a map store: the copy is taken here, so this is the point up to which modifications are written back
+				if x.Op == token.MUL && x.X == ssa.Value(a) {
+					seenV := map[ssa.Value]bool{}
+					var reaches func(v ssa.Value, d int) bool
+					reaches = func(v ssa.Value, d int) bool {
+						if d > 4 || seenV[v] {
+							return false
+						}
+						seenV[v] = true
+						for _, ref := range referrers(v) {
+							switch y := ref.(type) {
+							case *ssa.MapUpdate:
+								if y.Value == v && v != ssa.Value(x) {
+									return true
+								}
+							case *ssa.Phi:
+								if reaches(y, d+1) {
+									return true
+								}
+							}
+						}
+						return false
+					}
+					if reaches(x, 0) {
+						return evWriteBack
+					}
+				}
 			case *ssa.MapUpdate:
 				if ld, ok := x.Value.(*ssa.UnOp); ok && ld.Op == token.MUL {
 					if ld.X == ssa.Value(a) {
